@@ -603,8 +603,28 @@ func (x *exec) features(d cdiff, res *vsched.Result) []string {
 			dev += int(p.Costs[res.Choices[i]])
 		}
 	}
+	last := "none" // the last successfully sent message entry that mentions the CID
+	for _, m := range x.msgs {
+		if m.failed {
+			continue
+		}
+		for _, e := range m.ents {
+			if e.c != d.c {
+				continue
+			}
+			switch {
+			case e.cancel:
+				last = "cancel"
+			case e.block:
+				last = "want-block"
+			default:
+				last = "want-have"
+			}
+		}
+	}
 	return []string{
 		"diff", d.kind,
+		"last_message_for_cid", last,
 		"want_not_before_cancel_same_cid", fmt.Sprint(rewant),
 		"rebroadcast", fmt.Sprint(rebro),
 		"cid_in_peer_and_broadcast_lists", fmt.Sprint(peerL && bcstL),
@@ -725,6 +745,7 @@ func scripts(thorough bool) []*script {
 	add(mk("cancel-vs-timed-rebroadcast", bigMsg, true, "WB0", "SL30s CA0"), bound)
 	add(mk("want-vs-cancel", bigMsg, true, "", "WB0", "CA0"), bound)
 	add(mk("have-upgrade-in-flight", bigMsg, true, "", "WH0", "WB0"), bound)
+	add(mk("block-in-flight-cancel-rewant-have", bigMsg, true, "", "WB0", "CA0 WH0"), 2)
 	add(mk("both-lists-cancel-rewant", bigMsg, true, "WB0 BH0", "CA0 BH0"), bound)
 	add(mk("both-lists-cancel-rewant-peer", bigMsg, true, "WB0 BH0", "CA0 WB0"), bound)
 	add(mk("sent-cancel-rewant-vs-cancel", bigMsg, true, "WB0 SL50ms", "CA0 WB0", "CA0"), lo)
